@@ -4,7 +4,7 @@
 From Coq Require Import List ZArith Bool Reals Lra Lia String Ascii.
 From T4V Require Import Base.Str Base.Scalar C06.Model
      C06.ProofsIndex C06.ProofsNumeric C06.ProofsDevelop C06.ProofsTop C06.ProofsText
-     C06.ProofsEndToEnd C06.LinkC05.
+     C06.ProofsEndToEnd C06.LinkC05 C06.ProofsTokens.
 Import ListNotations.
 
 (* ---- index order ----------------------------------------------------------
@@ -26,7 +26,6 @@ Proof.
   intros bs H. split; [now apply indices_length|]. split; [now apply indices_at_flat_index|].
   split; [now apply indices_position|now apply indices_NoDup].
 Qed.
-Print Assumptions C06_indices_first_fastest.
 
 (* LatticeSpec(bounds, spec).items(): element idx receives array entry number
    flat_index(idx); every element of the ranges is listed, nothing else. *)
@@ -40,13 +39,11 @@ Theorem C06_items_array : forall (bs : bounds) (spec : list Z),
     (forall idx u, In (idx, u) l ->
        in_ranges idx bs /\ u = nth (Z.to_nat (flat_index bs idx)) spec 0%Z).
 Proof. exact items_array. Qed.
-Print Assumptions C06_items_array.
 
 Theorem C06_items_array_3d : forall i0 i1 j0 j1 k0 k1 i j k : Z,
   flat_index [(i0, i1); (j0, j1); (k0, k1)] [i; j; k]
   = ((i - i0) + (i1 - i0 + 1) * ((j - j0) + (j1 - j0 + 1) * (k - k0)))%Z.
 Proof. exact flat_index_3d. Qed.
-Print Assumptions C06_items_array_3d.
 
 (* LatticeSpec.__getitem__ with a tuple reads the array with the LAST index
    fastest ((i-i0)*n_j*n_k + (j-j0)*n_k + (k-k0)), the opposite of items();
@@ -59,7 +56,6 @@ Theorem C06_getitem_tuple_last_fastest :
      items bs spec = Ok (combine (indices bs) spec) /\ In (idx, u) (combine (indices bs) spec) /\
      spec_getitem_tuple bs spec idx = Ok v /\ u <> v).
 Proof. split; [exact getitem_tuple_last_fastest|exact getitem_tuple_disagrees_with_items]. Qed.
-Print Assumptions C06_getitem_tuple_last_fastest.
 
 (* FILL=n on a lattice cell: an error without --lattice; with --lattice ranges
    one array entry n per element of the ranges *)
@@ -70,7 +66,6 @@ Theorem C06_homogeneous_fill : forall (fb : option bounds) (n lat : Z) (bs : bou
     Z.of_nat (List.length spec) = size bs /\
     forall k, (k < List.length spec)%nat -> nth k spec 0%Z = n.
 Proof. exact homogeneous_fill. Qed.
-Print Assumptions C06_homogeneous_fill.
 
 (* ---- numeric part, over the reals -----------------------------------------
    dot = scalar product; gram2 v1 v2 = |v1|^2|v2|^2-(v1.v2)^2 (0 iff parallel);
@@ -92,7 +87,6 @@ Theorem C06_reciprocal_dual :
 Proof.
   split; [exact reciprocal_dual_1|]. split; [exact reciprocal_dual_2|exact reciprocal_dual_3].
 Qed.
-Print Assumptions C06_reciprocal_dual.
 
 (* Unit cell = 1, 2 or 3 pairs of surfaces ((point, normal), side) in card
    order; the two surfaces of a pair in either order, normals of any sense and
@@ -121,7 +115,6 @@ Theorem C06_square_base_vectors :
 Proof.
   split; [exact square_base_vectors_1|]. split; [exact square_base_vectors_2|exact square_base_vectors_3].
 Qed.
-Print Assumptions C06_square_base_vectors.
 
 (* what those equations mean: out_dist w pt x = w.(x - pt), the outward distance
    of x from the plane through pt.  Translating by a_i carries the second-listed
@@ -135,14 +128,12 @@ Theorem C06_square_base_vectors_translate :
   (forall a w : @vec R, dot a w = 0%R ->
      forall pt x, out_dist w pt (vadd RS x a) = out_dist w pt x).
 Proof. split; [exact translate_pair|exact translate_other]. Qed.
-Print Assumptions C06_square_base_vectors_translate.
 
 (* the outward normal is the card's normal, reversed when the cell lies on its
    positive side *)
 Theorem C06_outward_sense : forall s : @plane R * Z, snd s = 1%Z ->
   outward s = (let '(x, y, z) := snormal s in (- x, - y, - z)%R).
 Proof. exact outward_flipped. Qed.
-Print Assumptions C06_outward_sense.
 
 
 (* the "side" entries do not influence the result at all: the reciprocal vector
@@ -151,7 +142,6 @@ Print Assumptions C06_outward_sense.
 Theorem C06_square_sides_irrelevant : forall l l' : list (@plane R * Z),
   map fst l = map fst l' -> squareLatticeBaseVectors RS l = squareLatticeBaseVectors RS l'.
 Proof. exact square_sides_irrelevant. Qed.
-Print Assumptions C06_square_sides_irrelevant.
 
 (* error branches: a number of surfaces other than 2, 4, 6 is a LatticeError;
    a pair of coincident planes divides by zero *)
@@ -163,7 +153,6 @@ Theorem C06_square_errors :
      (List.length rest = 0 \/ List.length rest = 2 \/ List.length rest = 4)%nat ->
      squareLatticeBaseVectors RS (sa :: sb :: rest) = Err EZeroDiv).
 Proof. split; [exact square_wrong_count|exact square_coincident_pair]. Qed.
-Print Assumptions C06_square_errors.
 
 (* ---- transformations -------------------------------------------------------
    apply_tr [O;B] p = O + B^T p : how geometry is moved by 12 numbers
@@ -182,7 +171,6 @@ Proof.
   split; [exact compose_transform_point|].
   split; [exact compose_transform_direct|exact compose_transform_order_matters].
 Qed.
-Print Assumptions C06_compose_transform_point.
 
 (* ---- develop_lattice -------------------------------------------------------
    Generic in the base vectors (shared with hexagonal lattices).
@@ -207,7 +195,6 @@ Theorem C06_develop_lattice_located :
       let u := nth (Z.to_nat (flat_index bs (ne_index e))) spec 0%Z in
       u <> 0%Z /\ elem_located cell vecs u e) elems.
 Proof. exact develop_lattice_located_ranges. Qed.
-Print Assumptions C06_develop_lattice_located.
 
 (* an index tuple is generated iff it lies in the declared ranges and its array
    entry is not 0 *)
@@ -218,7 +205,6 @@ Theorem C06_develop_lattice_complete :
   forall idx, In idx (map (@ne_index R) elems) <->
               (in_ranges idx bs /\ nth (Z.to_nat (flat_index bs idx)) spec 0%Z <> 0%Z).
 Proof. exact develop_lattice_complete. Qed.
-Print Assumptions C06_develop_lattice_complete.
 
 (* the dimension test of develop_lattice (repaired in /repo 9b5a8f0): at least
    one range per base vector and one-point ranges beyond the lattice dimensions;
@@ -232,7 +218,6 @@ Proof.
   intros; split; [apply dimension_checks_spec|]. split; [apply dimension_checks_err|].
   apply dimension_checks_same_length.
 Qed.
-Print Assumptions C06_dimension_checks_spec.
 
 (* degenerate leading ranges are accepted and developed: a 2-D lattice with
    FILL=-1:1 k:k 0:0 (one row, at ANY row number k) yields exactly the elements
@@ -251,7 +236,6 @@ Theorem C06_degenerate_ranges_developed :
                   = vadd RS (rescale RS (IZR i) a1) (vadd RS (rescale RS (IZR k) a2) (0, 0, 0)%R) /\
       elem_located cell [a1; a2] u e) elems.
 Proof. exact degenerate_ranges_developed. Qed.
-Print Assumptions C06_degenerate_ranges_developed.
 
 
 
@@ -291,7 +275,6 @@ Proof.
   - intros. now apply develop_lattice_2d.
   - intros. now apply develop_lattice_3d.
 Qed.
-Print Assumptions C06_develop_lattice_square.
 
 (* the planes reach the base-vector code in card order; a negative literal
    reverses the recorded side *)
@@ -302,7 +285,6 @@ Theorem C06_extract_surfaces : forall (dic : Z -> list (@plane R * Z)) (ids : li
     exists P, dic (Z.abs id) = [(P, 1%Z)] /\
               nth_error (extract_surfaces dic ids) k = Some (P, if (0 <? id)%Z then 1%Z else (-1)%Z).
 Proof. exact extract_surfaces_planes. Qed.
-Print Assumptions C06_extract_surfaces.
 
 (* ---- text level ------------------------------------------------------------
    spells_range s (lo, hi): s = a ++ ":" ++ c with int(a) = lo, int(c) = hi for
@@ -310,7 +292,6 @@ Print Assumptions C06_extract_surfaces.
 Theorem C06_parse_ranges_spelled : forall (strs : list string) (bs : bounds),
   Forall2 spells_range strs bs -> parse_ranges strs = Ok bs.
 Proof. exact parse_ranges_spelled. Qed.
-Print Assumptions C06_parse_ranges_spelled.
 
 Theorem C06_parse_lattice_option :
   forall (head : string) (cell : Z) (strs : list string) (bs : bounds),
@@ -324,7 +305,6 @@ Proof.
   - now apply parse_lattice_option.
   - now apply (parse_lattice_too_many head cell strs bs).
 Qed.
-Print Assumptions C06_parse_lattice_option.
 
 (* ---- end to end: which points belong to a volume of which material ----------
    Interface restated from C05/C04 (not proved here): cell_transform(key, T)
@@ -348,7 +328,6 @@ Theorem C06_lattice_end_to_end :
     forall p m, (exists r, In (r, m) (lattice_volumes unit_cell own_mat leaves elems) /\ r p) <->
                 lattice_owner unit_cell own_mat leaves cell vecs bs spec p m.
 Proof. intros M. exact (@lattice_end_to_end M). Qed.
-Print Assumptions C06_lattice_end_to_end.
 
 (* the same from the surfaces of the cell card (three pairs of planes) *)
 Theorem C06_lattice_end_to_end_3d :
@@ -368,7 +347,6 @@ Theorem C06_lattice_end_to_end_3d :
     forall p m, (exists r, In (r, m) (lattice_volumes unit_cell own_mat leaves elems) /\ r p) <->
                 lattice_owner unit_cell own_mat leaves cell [a1; a2; a3] bs spec p m.
 Proof. intros M. exact (@lattice_end_to_end_3d M). Qed.
-Print Assumptions C06_lattice_end_to_end_3d.
 
 (* ... and from one or two pairs of planes (lattices infinite in the other
    directions; the FILL array may still have three ranges, the surplus ones
@@ -399,7 +377,6 @@ Proof.
   - intros. now apply (@lattice_end_to_end_1d M).
   - intros. now apply (@lattice_end_to_end_2d M).
 Qed.
-Print Assumptions C06_lattice_end_to_end_1d_2d.
 
 (* ---- LINKED with C05: the interface of C06_lattice_end_to_end is no longer assumed -----
    C05's model (C05/Model.v: cell_transform, pot_fill over a table of cells) and its
@@ -466,7 +443,60 @@ Proof.
   intros surf teqb tr_surf inv sense H1 H2 cell vecs bs spec.
   exact (lattice_end_to_end_linked surf teqb tr_surf inv sense H1 H2 cell vecs bs spec).
 Qed.
-Print Assumptions C06_lattice_end_to_end_linked.
+
+(* the CONVERSE of C06_lattice_end_to_end_linked (round 3): a cell returned by pot_fill
+   that is true at p comes from an element of the declared ranges with a non-zero entry
+   whose translated unit cell contains p', and either the entry is the own universe and the
+   cell carries the lattice cell's material, or p' = t + placement(q) for a point q located
+   along a descent of the entry's universe whose last cell gives the material.  Together
+   with the forward theorem: the linked statement is an iff like the unlinked one.
+   Extra hypotheses: the lattice universe's list holds ONLY element cells, and (C05's Den
+   being partial) every descent below the container has a value at p and the lattice cell
+   has a value everywhere. *)
+Theorem C06_lattice_end_to_end_conv_linked :
+  forall (surf : Type) (teqb : list R -> list R -> bool) (tr_surf : list R -> surf -> surf)
+         (inv : list R -> @vec R -> @vec R) (sense : surf -> @vec R -> bool),
+  (forall t o p, sense (tr_surf t o) p = sense o (inv t p)) ->
+  (forall a b, teqb a b = true -> is_nil a = is_nil b /\ forall p, inv a p = inv b p) ->
+  forall (cell : @lat_cell R) (vecs : list (@vec R)) (bs : bounds) (spec : list Z),
+  lc_fill cell = FSpec bs spec -> bs <> [] -> wf_bounds bs ->
+  Z.of_nat (List.length spec) = size bs ->
+  (List.length vecs <= List.length bs)%nat -> Forall trivial_range (skipn (List.length vecs) bs) ->
+  cell_shape_ok cell ->
+  exists elems, develop_lattice_with RS (Ok vecs) cell = Ok elems /\
+  forall (fuel cf : nat) (s0 s1 s2 : M5.state (list R) surf) (latkey : Z) (lcl : M5.cell (list R))
+         (keys : list Z) (du : list (Z * list Z)) (ifd ifg : bool) (key : Z)
+         (kcl : M5.cell (list R)) (U : Z) (ks : list Z),
+  Forall (fun e => inverse_of inv (ne_trnsf e) /\ inverse_of inv (ne_filltr e)) elems ->
+  P5.Inv (list R) surf (@vec R) (@is_nil R) inv sense s0 ->
+  M5.dget latkey (M5.s_cells s0) = Some lcl ->
+  develop_state surf teqb tr_surf fuel latkey elems s0 = M5.Ok (keys, s1) ->
+  M5.dget key (M5.s_cells s1) = Some kcl -> M5.c_fill kcl = Some U ->
+  (forall k, In k (M5.du_get U du) -> In k keys) ->
+  (forall c cl, M5.dget c (M5.s_cells s1) = Some cl -> M5.c_orig cl = []) ->
+  (forall u c, In c (M5.du_get u du) -> exists cl, M5.dget c (M5.s_cells s1) = Some cl) ->
+  M5.pot_fill (list R) surf (@is_nil R) teqb tr_surf fuel cf du ifd ifg key s1 = M5.Ok (ks, s2) ->
+  forall p, let p' := S5.frame (list R) (@vec R) (@is_nil R) inv kcl p in
+  (forall ch chs, S5.Paths (list R) surf s1 du key chs -> In ch chs ->
+     exists b, S5.LocB (list R) surf (@vec R) (@is_nil R) inv sense s1 du key p ch b) ->
+  (forall q, exists b, S5.Den (list R) surf (@vec R) sense s0 q (M5.TRef latkey) b) ->
+  forall k ncl, In k ks -> M5.dget k (M5.s_cells s2) = Some ncl ->
+  S5.Den (list R) surf (@vec R) sense s2 p (M5.TRef k) true ->
+  exists idx, in_ranges idx bs /\
+    let t := lattice_point vecs idx in
+    let u := nth (Z.to_nat (flat_index bs idx)) spec 0%Z in
+    u <> 0%Z /\ S5.Den (list R) surf (@vec R) sense s1 p (M5.c_geom kcl) true /\
+    S5.Den (list R) surf (@vec R) sense s0 (vdiff RS p' t) (M5.TRef latkey) true /\
+    ((u = lc_universe cell /\ M5.c_mat ncl = M5.c_mat lcl /\ M5.c_rho ncl = M5.c_rho lcl) \/
+     (u <> lc_universe cell /\
+      exists q c ch lfl, In c (M5.du_get u du) /\ p' = vadd RS (placement cell q) t /\
+        S5.Located (list R) surf (@vec R) (@is_nil R) inv sense s1 du c q ch /\
+        M5.dget (last ch 0%Z) (M5.s_cells s1) = Some lfl /\
+        M5.c_mat ncl = M5.c_mat lfl /\ M5.c_rho ncl = M5.c_rho lfl)).
+Proof.
+  intros surf teqb tr_surf inv sense H1 H2 cell vecs bs spec.
+  exact (lattice_end_to_end_linked_conv surf teqb tr_surf inv sense H1 H2 cell vecs bs spec).
+Qed.
 
 (* the hypothesis [inverse_of] is satisfiable: p -> B (p - O) is the inverse of C06's point
    map for every orthogonal [O; B]; translations are orthogonal and composing with the
@@ -481,7 +511,6 @@ Theorem C06_link_inverse_satisfiable :
 Proof.
   split; [exact inv_orth_inverse|]. split; [exact translation_orthogonal|exact compose_translation_orthogonal].
 Qed.
-Print Assumptions C06_link_inverse_satisfiable.
 
 (* ---- FILL arrays on the cell card (ParseMCNPCell.parse_fill_kw) -----------------
    tokens in reading order after "(", ")" and "=" have become blanks.
@@ -500,7 +529,6 @@ Theorem C06_parse_fill_kw_array :
   Forall param_token sur -> keyword_or_end tail ->
   parse_fill_kw first (more ++ utoks ++ sur ++ tail)%list = Ok (mkFillKw (Some bs) (FArr us) sur tail).
 Proof. exact parse_fill_kw_array. Qed.
-Print Assumptions C06_parse_fill_kw_array.
 
 (* too few universes before the end of the card: ParseMCNPCellError; and what
    0 / 1 / 3 / any other number of parameter tokens become *)
@@ -516,7 +544,6 @@ Theorem C06_parse_fill_kw_short_and_shapes :
      (forall l, List.length l <> 0%nat -> List.length l <> 1%nat -> List.length l <> 3%nat ->
         fill_params_shape star l = PMatrix star l)).
 Proof. split; [exact parse_fill_kw_array_short|exact fill_params_shapes]. Qed.
-Print Assumptions C06_parse_fill_kw_short_and_shapes.
 
 (* finding array_entry_transformation: 'fill=-1:1 0:0 0:0 5 5 5(0 1 0)' - MCNP
    attaches (0 1 0) to the LAST entry; the code makes it the translation of the
@@ -529,7 +556,6 @@ Proof.
   exists "-1:1"%string, ["0:0"; "0:0"; "5"; "5"; "5"; "0"; "1"; "0"; "imp:n"; "1"]%string.
   eexists. split; [vm_compute; reflexivity|]. split; reflexivity.
 Qed.
-Print Assumptions C06_array_entry_transformation_refuted.
 
 (* EXACTLY which FILL-array texts are affected by finding array_entry_transformation.
    A FILL array as written = ranges, then one entry per element: a universe number
@@ -550,7 +576,6 @@ Theorem C06_fill_array_read_as_mcnp :
               mcnp_equivalent k us es)
    <-> ((forall e, In e es -> snd e = []) \/ List.length es = 1%nat)).
 Proof. exact fill_array_read_as_mcnp. Qed.
-Print Assumptions C06_fill_array_read_as_mcnp.
 
 (* whatever the grouping by parentheses, what the code keeps is: the first
    size(ranges) tokens as universes and ALL the other numeric tokens as one
@@ -563,7 +588,20 @@ Theorem C06_parse_fill_kw_flat :
   parse_fill_kw first (more ++ toks ++ tail)%list = Ok k ->
   fk_params k = skipn (Z.to_nat (size bs)) toks /\ fk_rest k = tail /\ fk_bounds k = Some bs.
 Proof. exact parse_fill_kw_flat. Qed.
-Print Assumptions C06_parse_fill_kw_flat.
+
+(* "the code sees the flattened tokens", proved (round 3): the option text
+     kw=first more... u1 u2(t t ...) u3 ...
+   (okword: a non-empty token of characters that are neither blanks nor ( ) = nor
+   upper-case letters, not starting or ending with a colon) is tokenised by the model of
+   parse_one_cell_worker into kw, the ranges and flatten_entries; with
+   C06_fill_array_read_as_mcnp this characterises the affected TEXTS, not only token lists *)
+Theorem C06_tokenize_fill_array :
+  forall (kw first : string) (more : list string) (es : list (string * list string)),
+  okword kw -> okword first -> Forall okword more ->
+  Forall (fun e => okword (fst e) /\ Forall okword (snd e)) es ->
+  tokenize_options (kw ++ String "=" first ++ spaced more ++ render_entries es)%string
+  = (kw :: first :: more ++ flatten_entries es)%list.
+Proof. exact tokenize_fill_array. Qed.
 
 (* ---- non-vacuity ------------------------------------------------------------ *)
 (* a skew 2-D unit cell: planes x = +-1 (far plane first) and x + y = +-1 (near
@@ -623,3 +661,50 @@ Proof.
     specialize (H ("5"%string, ["0"; "1"; "0"]%string)). cbn in H.
     assert (X : ["0"; "1"; "0"]%string = []) by (apply H; tauto). discriminate X.
 Qed.
+
+(* the text of the finding's witness: rendered from its entries, tokenised to the
+   flattened tokens on which C06_array_entry_transformation_refuted computes *)
+Example C06_example_witness_text :
+  let es := [("5", []); ("5", []); ("5", ["0"; "1"; "0"])]%string in
+  ("fill" ++ String "=" "-1:1" ++ spaced ["0:0"; "0:0"] ++ render_entries es)%string
+  = "fill=-1:1 0:0 0:0 5 5 5(0 1 0)"%string /\
+  tokenize_options "fill=-1:1 0:0 0:0 5 5 5(0 1 0)"
+  = ["fill"; "-1:1"; "0:0"; "0:0"; "5"; "5"; "5"; "0"; "1"; "0"]%string /\
+  okword "-1:1" /\ okword "fill".
+Proof. cbv zeta. repeat split; reflexivity. Qed.
+
+(* ================================================================== *)
+(* Families: the conjunction of the theorems above, grouped, so that    *)
+(* one Print Assumptions audits each group (the statement of a family   *)
+(* is literally the conjunction of the statements of its members).      *)
+(* ================================================================== *)
+(* index order, items, __getitem__, homogeneous fill, dimension test *)
+Theorem C06_family_index :
+  ltac:(let t := type of (conj C06_indices_first_fastest (conj C06_items_array (conj C06_items_array_3d (conj C06_getitem_tuple_last_fastest (conj C06_homogeneous_fill C06_dimension_checks_spec))))) in exact t).
+Proof. exact (conj C06_indices_first_fastest (conj C06_items_array (conj C06_items_array_3d (conj C06_getitem_tuple_last_fastest (conj C06_homogeneous_fill C06_dimension_checks_spec))))). Qed.
+Print Assumptions C06_family_index.
+
+(* reciprocal and base vectors, sides, errors, compose_transform *)
+Theorem C06_family_numeric :
+  ltac:(let t := type of (conj C06_reciprocal_dual (conj C06_square_base_vectors (conj C06_square_base_vectors_translate (conj C06_outward_sense (conj C06_square_sides_irrelevant (conj C06_square_errors C06_compose_transform_point)))))) in exact t).
+Proof. exact (conj C06_reciprocal_dual (conj C06_square_base_vectors (conj C06_square_base_vectors_translate (conj C06_outward_sense (conj C06_square_sides_irrelevant (conj C06_square_errors C06_compose_transform_point)))))). Qed.
+Print Assumptions C06_family_numeric.
+
+(* develop_lattice: located, complete, degenerate ranges, from the card's planes, end to end (interface restated) *)
+Theorem C06_family_develop :
+  ltac:(let t := type of (conj C06_develop_lattice_located (conj C06_develop_lattice_complete (conj C06_degenerate_ranges_developed (conj C06_develop_lattice_square (conj C06_extract_surfaces (conj C06_lattice_end_to_end (conj C06_lattice_end_to_end_3d C06_lattice_end_to_end_1d_2d))))))) in exact t).
+Proof. exact (conj C06_develop_lattice_located (conj C06_develop_lattice_complete (conj C06_degenerate_ranges_developed (conj C06_develop_lattice_square (conj C06_extract_surfaces (conj C06_lattice_end_to_end (conj C06_lattice_end_to_end_3d C06_lattice_end_to_end_1d_2d))))))). Qed.
+Print Assumptions C06_family_develop.
+
+(* --lattice options, FILL arrays on the cell card, tokenisation, the characterisation of finding array_entry_transformation *)
+Theorem C06_family_text :
+  ltac:(let t := type of (conj C06_parse_ranges_spelled (conj C06_parse_lattice_option (conj C06_parse_fill_kw_array (conj C06_parse_fill_kw_short_and_shapes (conj C06_array_entry_transformation_refuted (conj C06_fill_array_read_as_mcnp (conj C06_parse_fill_kw_flat C06_tokenize_fill_array))))))) in exact t).
+Proof. exact (conj C06_parse_ranges_spelled (conj C06_parse_lattice_option (conj C06_parse_fill_kw_array (conj C06_parse_fill_kw_short_and_shapes (conj C06_array_entry_transformation_refuted (conj C06_fill_array_read_as_mcnp (conj C06_parse_fill_kw_flat C06_tokenize_fill_array))))))). Qed.
+Print Assumptions C06_family_text.
+
+(* linked with C05: both directions, satisfiability of the inverse law *)
+Theorem C06_family_linked :
+  ltac:(let t := type of (conj C06_lattice_end_to_end_linked (conj C06_lattice_end_to_end_conv_linked C06_link_inverse_satisfiable)) in exact t).
+Proof. exact (conj C06_lattice_end_to_end_linked (conj C06_lattice_end_to_end_conv_linked C06_link_inverse_satisfiable)). Qed.
+Print Assumptions C06_family_linked.
+
